@@ -18,12 +18,13 @@ func init() {
 }
 
 // field discipline. Forms:
-//   init-only            written only during init; read anywhere
-//   owner:<root-prefix>  non-init accesses only from functions reached solely by roots with that prefix
-//   mutex:<Owner.field>  non-init accesses hold that mutex
-//   atomic               non-init accesses are atomic
-//   sync                 synchronisation primitive (channel value, mutex, timer): operations are their own synchronisation
-//   exempt:<reason>
+//
+//	init-only            written only during init; read anywhere
+//	owner:<root-prefix>  non-init accesses only from functions reached solely by roots with that prefix
+//	mutex:<Owner.field>  non-init accesses hold that mutex
+//	atomic               non-init accesses are atomic
+//	sync                 synchronisation primitive (channel value, mutex, timer): operations are their own synchronisation
+//	exempt:<reason>
 var ownDiscipline = map[string]string{
 	// serverConn
 	"serverConn.c": "init-only", "serverConn.h": "init-only", "serverConn.maxWindow": "init-only", "serverConn.maxHeaderList": "init-only",
